@@ -119,7 +119,9 @@ def run(ctx, n_quick=36):
         else:
             vlib.log("builder layout %s: rejection not reproduced on retry (ignored)" % json.dumps(scs[ri]["calls"]))
             accepted += 1
-    selftest(ctx, [r for k, r in enumerate(runs) if k not in [x[0] for x in rejects]])
+    if not rejects:
+        # vacuity guard, meaningful only when every recorded run was accepted as it stands
+        selftest(ctx, runs)
     ctx.cov["traces_validated_against_impl"] += accepted
     ctx.cov["evaluations"] += len(scs)
     ctx.cov["distinct_nontrivial"] += sum(1 for s in scs if s["events"] and interesting({"calls": s["calls"]}))
